@@ -127,6 +127,20 @@ func (s *scopeGen) function(lvl int, tag string) (ast.FuncLit, *fnInfo) {
 				call("write", ast.Binary{Op: "+", L: ast.StrLit{V: " zip " + tag + " "}, R: ast.Binary{Op: "+", L: name(acc), R: call("toa", name(after))}}))
 		}
 	}
+	if r.Chance(1, 3) {
+		// a name whose first assignment in a function sits in the body of a while loop whose condition reads it: at
+		// the first test the function has no variable of that name yet, so the condition reads the outer one
+		// (the body returns, so there is no second test)
+		n := s.names[r.Intn(len(s.names))]
+		wf, wr := s.fresh("zh"), s.fresh("zr")
+		ss = append(ss, ast.Assign{Name: wf, Value: ast.FuncLit{Body: ast.While{
+			Cond: ast.Binary{Op: ">=", L: ast.Unary{Op: "#", X: call("toa", name(n))}, R: ast.IntLit{V: 0}},
+			Body: ast.Block{Stmts: []ast.Node{
+				ast.Assign{Name: n, Value: ast.Binary{Op: "+", L: call("toa", name(n)), R: ast.StrLit{V: "+w"}}},
+				ast.Return{X: name(n)}}}}}},
+			ast.Assign{Name: wr, Value: call(wf)},
+			call("write", ast.Binary{Op: "+", L: ast.StrLit{V: " wh " + tag + " "}, R: name(wr)}))
+	}
 	ss = append(ss, call("write", ast.Binary{Op: "+", L: ast.StrLit{V: " mid " + tag + " "}, R: call("toa", s.snapshot())}))
 	var result []ast.Node
 	if lvl < 3 && r.Chance(3, 4) {
